@@ -164,13 +164,19 @@ Fixpoint flat_index (ts : list srctok) (oi : nat) : nat :=       (* index of the
   | _, _ => 0
   end.
 
-(* Parser.currentLocation: positions == nil || currentPos >= len(positions) -> Location{} *)
+(* Parser.currentLocation: no mapping -> Location{}; a cursor past the last token (a production stepped over the end of
+   input before it failed) -> the position of the last token, i.e. the end of input (fix: it used to be Location{}) *)
+Definition last_start (ps : list (nat * (loc * loc))) : loc :=
+  match ps with
+  | [] => (0, 0)
+  | _ => fst (snd (last ps (0, ((0, 0), (0, 0)))))
+  end.
 Definition current_location (positions : option (list (nat * (loc * loc)))) (cursor : nat) : loc :=
   match positions with
   | None => (0, 0)
   | Some ps => match nth_error ps cursor with
                | Some p => fst (snd p)
-               | None => (0, 0)
+               | None => last_start ps
                end
   end.
 
